@@ -26,6 +26,9 @@ TGet ==
                 \cup (IF ~valid /\ ~(Serials \subseteq fresh) THEN {"stale_or_foreign_certificate"} ELSE {})
                 \cup (IF Serials \cap dead # {} THEN {"expired_certificate_served"} ELSE {})
                 \cup (IF Line.after \notin Serials THEN {"cache_holds_unserved_certificate"} ELSE {})
+                \* what a client of the proxy is shown in the TLS handshake of a tunnel to that target
+                \cup (IF "wire" \in DOMAIN Line /\ Line.wire_err THEN {"tunnel_handshake_failed"} ELSE {})
+                \cup (IF "wire" \in DOMAIN Line /\ ~Line.wire_err /\ Line.wire # Line.after THEN {"presented_other_than_cached"} ELSE {})
        IN /\ cached' = [cached EXCEPT ![h] = Line.after]
           /\ seen' = seen \cup Serials
           /\ Note(p)
